@@ -13,9 +13,10 @@
    Division / remainder by a constant zero is emitted as a *diagnostic*
    behaviour (`dz`), used by C07 only.
 
-   Seed and Stride subsample D for the quick tier: a vector is emitted iff
-   (hash(coordinates) + Seed) % Stride = 0; the guard is evaluated before any
-   wide arithmetic, so the quick tier costs 1/Stride of the thorough tier.
+   Base and D2Base (seed-independent) define D; Seed, Stride and D2Stride subsample D
+   for the quick tier: a vector of D is emitted iff (hash(coordinates) \div Base + Seed)
+   % Stride = 0; the guard is evaluated before any wide arithmetic, so the quick tier
+   costs 1/Stride of the thorough tier, and no seed leaves D.
 
    Families:
      bin un cast cond           depth-1 expressions over every type (pair)
@@ -25,7 +26,10 @@
 EXTENDS CIntBV, TLC, Json, CSV, IOUtils
 
 CONSTANTS Fams, Seed, Stride,
-          D2Stride            \* extra thinning of the depth-2 families (1 = all)
+          D2Stride,           \* seed-dependent thinning of the depth-2 *cases* (1 = all of D)
+          Base, D2Base        \* seed-INDEPENDENT thinning that defines the domain D itself: value choices with
+                              \* hash % Base = 0, depth-2 cases with hash % D2Base = 0.  The thorough tier
+                              \* (Stride = D2Stride = 1) enumerates exactly D; seeds only subsample D.
 
 VARIABLES fam, op, op2, a, b, c, i, j, k, ph,
           hb          \* hash of the case coordinates (computed once per case)
@@ -93,12 +97,16 @@ OIdxOf(o) == IF \E n \in 1..Len(BinSeq) : BinSeq[n] = o THEN CHOOSE n \in 1..Len
 TI(t) == IF t = "-" THEN 0 ELSE TIdx(t)
 CaseHash(cs) == OIdxOf(cs[2]) * 101 + OIdxOf(cs[3]) * 59 + TI(cs[4]) * 7 + TI(cs[5]) * 13 + TI(cs[6]) * 17
 (* the depth-2 families are thinned by whole cases (D2Stride), every family by value choice (Stride) *)
-CasePicked(cs) == cs[1] \in {"d2l", "d2r"} => (CaseHash(cs) + Seed) % D2Stride = 0
+CasePicked(cs) == cs[1] \in {"d2l", "d2r"} =>
+                    /\ CaseHash(cs) % D2Base = 0
+                    /\ ((CaseHash(cs) \div D2Base) + Seed) % D2Stride = 0
 (* the small families (unary, casts, the conversion contexts, ++/--) are always enumerated completely;
    depth 2 is thinned by whole cases already, so its value choices are thinned 8 times less *)
 VStride == IF fam \in {"un", "cast", "init", "arg", "ret", "assign", "test", "incdec"} THEN 1
            ELSE IF fam \in {"d2l", "d2r"} /\ Stride >= 8 THEN Stride \div 8 ELSE Stride
-Pick(ii, jj, kk) == (hb + ii * 31 + jj * 37 + kk * 41 + Seed) % VStride = 0
+Pick(ii, jj, kk) == LET h == hb + ii * 31 + jj * 37 + kk * 41 IN
+                    IF VStride = 1 /\ fam \notin {"bin", "cond", "opasg", "d2l", "d2r"} THEN TRUE
+                    ELSE h % Base = 0 /\ ((h \div Base) + Seed) % VStride = 0
 
 LeafJ(t, n) == [k |-> "leaf", t |-> t, v |-> VS(t)[n]]
 LeafZ(t, n) == Leaf(t, VT(t)[n])
